@@ -37,7 +37,15 @@ func (w *world) stress() error {
 			for i := 0; running.Load() > 0; i++ {
 				r, err := w.tgtRef(keys[(i+k)%len(keys)], "", "")
 				if err == nil {
-					_ = w.rc.Close(w.ctx, r)
+					// the second closer alternates between finished contexts
+					kind := "bg"
+					if k == 1 {
+						kind = []string{"cancelled", "expired", "bg"}[i%3]
+					}
+					if ctx, cancel, cerr := w.closeCtx(kind); cerr == nil {
+						_ = w.rc.Close(ctx, r)
+						cancel()
+					}
 				}
 				runtime.Gosched()
 			}
@@ -70,7 +78,7 @@ func (w *world) stress() error {
 	}
 	w.mu.Unlock()
 	w.reap()
-	if err := w.doClose(keys[0]); err != nil {
+	if err := w.doClose(keys[0], []string{"bg", "cancelled", "expired"}[len(w.sc.ID)%3]); err != nil {
 		return err
 	}
 	fs := w.snap()
